@@ -160,7 +160,10 @@ def onmatch_part(r):
     """1-3 pure conditions and one component that acts only on matching lines"""
     conds = [pure_cond(r) for _ in range(r.randint(1, 3))]
     eff = r.choice([f'push.onmatch("om", {hdr(r)})', 'print.onmatch("m $.csvpath.line_number $.headers.a")', f"@hit.onmatch = {hdr(r)}",
-                    f"counter.onmatch.cm({r.randint(1, 2)})", f'push.onmatch("ln", line_number())', f"@last_a.onmatch.notnone = {hdr(r)}"])
+                    f"counter.onmatch.cm({r.randint(1, 2)})", f'push.onmatch("ln", line_number())', f"@last_a.onmatch.notnone = {hdr(r)}",
+                    # the function on the right keeps its own books on every scanned line; only the write waits for a match
+                    f"@run.onmatch = sum.tot({nhdr(r)})", f"@clk.onmatch = counter.clicks({r.randint(1, 3)})",
+                    f"@run.onmatch = sum.tot({nhdr(r)})"])
     comps = conds[:]
     comps.insert(r.randint(0, len(comps)), eff)
     return r.choice([" ", "\n"]).join(comps)
